@@ -620,8 +620,68 @@ fn random_pattern_case(t: &mut sdmodel::tape::Tape, ctx: &Ctx) -> Option<(Case, 
     mk_case(ctx, "random_pattern", stmts, format!("random pattern in {pos} position"), true)
 }
 
+// What one turn of a loop (or one call) bound stays what it was when later
+// turns (calls) bind again: the pair of a `for`, the pieces of a pattern, a
+// collected rest and a rest parameter are built anew each time. Every target
+// form x iterable x way of keeping the bound value past its turn; after the
+// loop everything kept is printed, the first kept value is changed in place
+// and everything is printed again.
+pub fn kept_binding_cases(ctx: &Ctx, property: &str) -> Vec<(Case, bool)> {
+    // (target, expression that names the bound container(s) inside the body)
+    let targets = [
+        ("p", "p"), ("[..kv]", "kv"), ("[i, ..rest]", "rest"), ("[i, v]", "[i, v]"), ("[i, [a, ..tl]]", "tl"), ("[i, {\"k\": a, ..more}]", "more"), ("[_, v]", "v"),
+    ];
+    let iterables = [
+        ("[\"a\", \"b\", \"c\"]", 0), ("\"xyz\"", 0), ("{\"m\": \"a\", \"n\": \"b\", \"o\": \"c\"}", 0), ("0 .. 3", 0),
+        ("[[1, 2, 3], [4, 5, 6], [7, 8, 9]]", 1), ("{\"m\": [1, 2], \"n\": [3, 4, 5]}", 1),
+        ("[{\"k\": 1, \"x\": 2}, {\"k\": 3, \"y\": 4}, {\"k\": 5}]", 2),
+    ];
+    let keeps = [
+        ("kept += [{B}]", "for [_, x] in kept {\n    print(x)\n}\n"),
+        ("kept = [kept.., {B}]", "print(kept)\n"),
+        ("kept += [fn () {\n        return {B}\n    }]", "for [_, g] in kept {\n    print(g())\n}\n"),
+        ("kept += [{\"held\": {B}}]", "for [_, x] in kept {\n    print(x.held)\n}\n"),
+    ];
+    let mut srcs = vec![];
+    for (tgt, bound) in targets {
+        for (it, shape) in iterables {
+            // Patterns that need list / object elements only go with them.
+            let needs = if tgt.contains("[a, ..tl]") { 1 } else if tgt.contains("more") { 2 } else { 0 };
+            if needs != 0 && needs != shape { continue; }
+            for (keep, show) in keeps {
+                let k = keep.replace("{B}", bound);
+                let mutate = if keep.contains("fn ()") { "first := kept[0]()\n" } else if keep.contains("held") { "first := kept[0].held\n" } else { "first := kept[0]\n" };
+                // Changing the first kept value in place (when it is a list
+                // or an object) must not show in the others.
+                let change = if bound == "more" { "first.added = 99\n" } else if bound == "v" && shape == 0 { "" } else if bound == "v" && shape == 2 { "first.added = 99\n" } else { "first[0] = 99\n" };
+                let src = format!("kept := []\nfor {tgt} in {it} {{\n    {k}\n}}\n{show}{mutate}{change}{show}print(kept[0] === kept[1])\n");
+                srcs.push((src, format!("for {tgt} in {it}, kept by `{keep}`")));
+            }
+        }
+    }
+    // The same through calls: a rest parameter, a parameter pattern, and a
+    // destructuring declaration inside a function called several times.
+    for (params, bound) in [("..r", "r"), ("a, ..r", "r"), ("[h, ..tl]", "tl"), ("{\"k\": a, ..more}", "more"), ("a, [b, ..c]", "c")] {
+        for (keep, show) in keeps {
+            let k = keep.replace("{B}", bound);
+            let mutate = if keep.contains("fn ()") { "first := kept[0]()\n" } else if keep.contains("held") { "first := kept[0].held\n" } else { "first := kept[0]\n" };
+            let change = if bound == "more" { "first.added = 99\n" } else { "first[0] = 99\n" };
+            let calls = match params {
+                "..r" => "take(1, 2)\ntake(3, 4, 5)\ntake(6)\n",
+                "a, ..r" => "take(0, 1, 2)\ntake(0, 3, 4, 5)\ntake(0, 6)\n",
+                "[h, ..tl]" => "take([0, 1, 2])\ntake([0, 3])\nxs := [0, 4, 5]\ntake(xs)\ntake(xs)\n",
+                "a, [b, ..c]" => "take(0, [0, 1, 2])\ntake(0, [0, 3])\nxs := [0, 4, 5]\ntake(1, xs)\ntake(2, xs)\n",
+                _ => "take({\"k\": 1, \"x\": 2})\no := {\"k\": 3, \"y\": 4}\ntake(o)\ntake(o)\n",
+            };
+            let src = format!("kept := []\nfn take({params}) {{\n    {k}\n}}\n{calls}{show}{mutate}{change}{show}print(kept[0] === kept[1])\n");
+            srcs.push((src, format!("fn take({params}), kept by `{keep}`")));
+        }
+    }
+    source_cases(ctx, property, "kept_binding", "binding kept past its turn / call", srcs)
+}
+
 pub fn run(ctx: &Ctx) {
-    ctx.set_rule("every list pattern of width 0..3 (thorough: 4) over {name, _, nested [p, q], nested [h, ..t], nested {\"a\": x}} with and without a final ..rest, against lists of length 0..5 (two element families) and 4 non-list kinds; every object pattern of up to 3 entries from {shorthand, rename, rename to _, nested list pattern, computed key, nested object collect, absent key} with and without ..rest, against objects of size 0..5 and 3 non-object kinds; each in declaration, assignment, for-target and parameter position with all bound names printed, plus the round-trip law [p..] + rest == xs; every split of 0..5 argument values into plain and spread arguments (incl. empty spreads) against arity 0..4 with and without a rest parameter; a catalogue of inverse laws and of shape errors (duplicate names at any nesting, misplaced spread / collect); oracle: reference binding semantics, laws evaluated in Seed; spread beside a side effect on the spread list against the written-out form; random pattern trees (lists up to 40 wide, repeated object keys, depth 3) against fitting and one-off sources in a random binding position; sources of 17..100 elements; keys of a pattern that read a name bound by an earlier item of the same pattern (5 shapes x 3 records x 4 positions, with and without an outer variable of that name). Non-trivial = pattern with collect or nesting, or a call with spread arguments or a rest parameter; distinct = distinct source texts");
+    ctx.set_rule("every list pattern of width 0..3 (thorough: 4) over {name, _, nested [p, q], nested [h, ..t], nested {\"a\": x}} with and without a final ..rest, against lists of length 0..5 (two element families) and 4 non-list kinds; every object pattern of up to 3 entries from {shorthand, rename, rename to _, nested list pattern, computed key, nested object collect, absent key} with and without ..rest, against objects of size 0..5 and 3 non-object kinds; each in declaration, assignment, for-target and parameter position with all bound names printed, plus the round-trip law [p..] + rest == xs; every split of 0..5 argument values into plain and spread arguments (incl. empty spreads) against arity 0..4 with and without a rest parameter; a catalogue of inverse laws and of shape errors (duplicate names at any nesting, misplaced spread / collect); oracle: reference binding semantics, laws evaluated in Seed; spread beside a side effect on the spread list against the written-out form; random pattern trees (lists up to 40 wide, repeated object keys, depth 3) against fitting and one-off sources in a random binding position; sources of 17..100 elements; keys of a pattern that read a name bound by an earlier item of the same pattern (5 shapes x 3 records x 4 positions, with and without an outer variable of that name); what one turn or call bound (the pair of a `for`, pattern pieces, a collected rest, a rest parameter; 7 targets x 7 iterables and 5 parameter lists x 4 ways of keeping it: appended, spread into a new list, captured by a closure, held in an object) is unchanged by later turns / calls and by an in-place change of the value of another turn. Non-trivial = pattern with collect or nesting, or a call with spread arguments or a rest parameter; distinct = distinct source texts");
     ctx.replay_corpus(None);
     ctx.judge_all(law_cases(ctx), Via::Cli, None);
     let width = if ctx.tier == Tier::Quick { 3 } else { 4 };
@@ -630,6 +690,7 @@ pub fn run(ctx: &Ctx) {
     let via = Via::Fast;
     ctx.judge_all(cases, via, None);
     ctx.judge_all(dependent_key_cases(ctx), Via::Cli, None);
+    ctx.judge_all(kept_binding_cases(ctx, "C13"), Via::Cli, None);
     let cases = call_cases(ctx);
     ctx.set_extra("call_cases", serde_json::json!(cases.len()));
     ctx.judge_all(cases, Via::Cli, None);
